@@ -113,9 +113,6 @@ def variants(rng, doc, schema, defname):
 def run(ctx, verdict, replay=None, model_ok=True):
     rng = ctx.rng
     thorough = ctx.tier == "thorough"
-    extra = os.environ.get("VERIF_EXTRA_KNOWN")
-    if extra and os.path.exists(extra):
-        verdict.findings = verdict.findings + json.load(open(extra)).get("findings", [])
     batch = gb.BldBatch(ctx, "c14", converters=True, python=False)
     plan = []          # (sid, Src schema or None)
     replay_jobs = []
@@ -125,7 +122,7 @@ def run(ctx, verdict, replay=None, model_ok=True):
         batch.add({"pkg": job["pkg"], "root": "Root", "defs": []}, job["fmt"], veneers=job["veneers"], text=job["schema_text"])
         replay_jobs.append(job)
     else:
-        n = 100 if thorough else 45
+        n = 150 if thorough else 90
         k = 0
         for fmt in srcgen.FORMATS:
             for _ in range(n):
